@@ -136,9 +136,8 @@ type c20Stats struct {
 	nontrivial  map[string]bool // resource:formulaKey
 	formulas    map[string]bool
 	perRes      map[string]*resStats
-	explained   int64
-	shrinks     int64
-	known       map[string][]string // resource|history|variant -> keys of minimal failing formulas
+	memo        sync.Map // resource|history|variant|formulaKey -> verdict
+	minimised   atomic.Int64
 	evaluations atomic.Int64
 }
 
@@ -190,54 +189,69 @@ func filterObj(f *F) any {
 	return o
 }
 
-// report shrinks a failing formula to a minimal failing one, picks the simplest variant
-// on which that one fails, and records the violation under a structural signature.
+// memoEval evaluates f under variant v on the task's history, remembering the verdict:
+// minimisation re-visits the same small formulas from many starting points.
+func (c *c20Run) memoEval(ctx context.Context, s *site, res *resource, v variant, rows []*row, f *F) verdict {
+	key := res.Name + "|" + s.B.H.Name + "|" + v.Name + "|" + f.Key()
+	if x, ok := c.st.memo.Load(key); ok {
+		return x.(verdict)
+	}
+	vd := evaluate(ctx, s, res, v, rows, f)
+	c.st.evaluations.Add(1)
+	if vd.Kind != "engine" {
+		c.st.memo.Store(key, vd)
+	}
+	return vd
+}
+
+// report replaces a failing formula by the smallest failing formula reachable from it by
+// simplification (children, and formulas with a simplified child; ties broken by shape),
+// picks the simplest variant on which that one fails, and records the violation under a
+// structural signature. Everything here is a deterministic function of the failing
+// (history, variant, formula), so the set of signatures does not depend on scheduling.
 func (c *c20Run) report(ctx context.Context, s *site, t *c20Task, f *F, vd verdict) {
 	st := c.st
-	kkey := t.res.Name + "|" + s.B.H.Name + "|" + t.v.Name
-	cl := closure(f)
 	st.mu.Lock()
 	st.perRes[t.res.Name].Failing++
-	for _, k := range st.known[kkey] {
-		if _, ok := cl[k]; ok {
-			st.explained++
-			st.mu.Unlock()
-			return
+	st.mu.Unlock()
+	type cand struct {
+		f     *F
+		size  int
+		shape string
+	}
+	var cands []cand
+	for _, g := range closure(f) {
+		if n := g.size(); n < f.size() {
+			cands = append(cands, cand{g, n, g.Shape() + "#" + g.Key()})
 		}
 	}
-	tooMany := st.shrinks >= 20000
-	st.shrinks++
-	st.mu.Unlock()
+	sort.Slice(cands, func(i, j int) bool {
+		if cands[i].size != cands[j].size {
+			return cands[i].size < cands[j].size
+		}
+		return cands[i].shape < cands[j].shape
+	})
 	min, mvd := f, vd
-	if !tooMany {
-	outer:
-		for {
-			for _, r := range min.reductions() {
-				if c.r.Expired() {
-					break outer
-				}
-				rv := evaluate(ctx, s, t.res, t.v, t.rows, r)
-				c.st.evaluations.Add(1)
-				if rv.bad() && rv.Kind != "engine" {
-					min, mvd = r, rv
-					continue outer
-				}
-			}
+	for _, cd := range cands {
+		if c.r.Expired() {
+			break
+		}
+		rv := c.memoEval(ctx, s, t.res, t.v, t.rows, cd.f)
+		if rv.bad() && rv.Kind != "engine" {
+			min, mvd = cd.f, rv
 			break
 		}
 	}
-	st.mu.Lock()
-	st.known[kkey] = append(st.known[kkey], min.Key())
-	st.mu.Unlock()
+	if min != f {
+		st.minimised.Add(1)
+	}
 	// simplest variant on which the minimal formula fails
 	v, vvd := t.v, mvd
 	for _, cand := range t.res.variants(s.B, c.thorough) {
 		if cand.Name == t.v.Name {
 			break
 		}
-		rows := t.res.rows(s.B.Ref, cand)
-		rv := evaluate(ctx, s, t.res, cand, rows, min)
-		c.st.evaluations.Add(1)
+		rv := c.memoEval(ctx, s, t.res, cand, t.res.rows(s.B.Ref, cand), min)
 		if rv.bad() && rv.Kind != "engine" {
 			v, vvd = cand, rv
 			break
@@ -285,7 +299,7 @@ func runC20() int {
 		return r.Finish(nil, []string{pgsimAssumption})
 	}
 	c := &c20Run{r: r, built: built, thorough: r.Thorough(), samples: ev.NewSamples(8),
-		st: &c20Stats{nontrivial: map[string]bool{}, formulas: map[string]bool{}, perRes: map[string]*resStats{}, known: map[string][]string{}}}
+		st: &c20Stats{nontrivial: map[string]bool{}, formulas: map[string]bool{}, perRes: map[string]*resStats{}}}
 	const chunk = 40
 	var tasks []*c20Task
 	variantNames := map[string][]string{}
@@ -378,8 +392,7 @@ func runC20() int {
 					sites[t.hi] = s
 				}
 				for _, f := range t.forms {
-					vd := evaluate(ctx, s, t.res, t.v, t.rows, f)
-					c.st.evaluations.Add(1)
+					vd := c.memoEval(ctx, s, t.res, t.v, t.rows, f)
 					localEval[t.res.Name]++
 					key := t.res.Name + ":" + f.Key()
 					localAll[key] = true
@@ -432,16 +445,16 @@ func runC20() int {
 	}
 	rule += " × current state and points in time (effective and insertion date, volumes grouped by 0..2 segments); List* must equal the entities selected by an independent Go evaluator over the reference ledger ($not = set complement), Count* must equal the number of listed entities. $like and the undocumented `updated_at` field are outside the property statement and not enumerated"
 	return r.Finish(ev.Coverage{
-		"evaluations":         st.evaluations.Load(),
-		"distinct_formulas":   len(st.formulas),
-		"distinct_nontrivial": nt,
-		"per_resource":        st.perRes,
-		"variants":            variantNames,
-		"histories":           hs,
-		"failing_explained_by_smaller_failing_formula": st.explained,
-		"rule":       rule,
-		"samples":    c.samples.List(),
-		"exhaustive": exhaustive,
+		"evaluations":                          st.evaluations.Load(),
+		"distinct_formulas":                    len(st.formulas),
+		"distinct_nontrivial":                  nt,
+		"per_resource":                         st.perRes,
+		"variants":                             variantNames,
+		"histories":                            hs,
+		"failing_minimised_to_smaller_formula": st.minimised.Load(),
+		"rule":                                 rule,
+		"samples":                              c.samples.List(),
+		"exhaustive":                           exhaustive,
 	}, []string{pgsimAssumption,
 		"address pattern `a:...` is read as «a at position 0 with any number of segments» (the wording of /repo/internal/storage/ledger/utils_test.go), i.e. it also selects the bare account `a`",
 		"balance[ASSET] on accounts is read as «the account has a balance in ASSET and it compares as stated»; an account that never moved ASSET is selected only through $not",
